@@ -18,7 +18,7 @@ RULE = (
     "for one droplet, a reduced complete product for two droplets, radius lattices on polar/spherical grids and z/radius lattices on "
     "cylindrical grids; cases violating the stated preconditions (covered set not one face-connected component, knife-edge cell, droplet "
     "not inside a non-periodic box, winding) are screened and counted; non-trivial = droplet covers >= 3 cells"
-    " plus annular polar/spherical grids, radii up to the outer wall, cylindrical z ranges on both sides of 0, elongated boxes with pairs separated by multiples of the other axis' length, UnitGrid objects, centres one and two periods outside; histories (fresh fork): all ordered pairs/triples of grids of one family differing in one attribute, and four analyses on one shared grid object; the same placements measured in length units 1e-9, 1e-5, 1e4, 1e12 (all tolerances scale with the unit)"
+    " plus annular polar/spherical grids, radii up to the outer wall, cylindrical z ranges on both sides of 0, elongated boxes with pairs separated by multiples of the other axis' length, UnitGrid objects, centres one and two periods outside; histories (fresh fork): all ordered pairs/triples of grids of one family differing in one attribute, and four analyses on one shared grid object; large diagonal pairs whose bounding boxes overlap; the same placements measured in length units 1e-9, 1e-5, 1e4, 1e12 (all tolerances scale with the unit)"
 )
 ASSUMPTIONS = [
     "placements restricted to the declared lattices (sub-cell offsets k/4 + seed phase); the half-cell bound is checked, not proved",
@@ -85,6 +85,11 @@ def blocks(tier, seed):
             out.append({"kind": kind, "n": 10, "r0": 2.5, "R": 7.5, "phase": ph, "unit_length": u})
         for pz in (False, True):
             out.append({"kind": "cyl", "shape": [5, 9], "R": 2.5, "z": [-9.3, -3.0], "pz": pz, "phase": ph, "tier": tier, "unit_length": u})
+    # large droplets close to each other on a diagonal: the axis-aligned bounding boxes of the two clusters overlap although the
+    # droplets are separated by the required gap
+    for dim in (2, 3):
+        for mask in ([False] * dim, [True] * dim, [True] + [False] * (dim - 1)):
+            out.append({"kind": "diag", "dim": dim, "mask": mask, "phase": ph})
     # histories: all ordered pairs of grids that differ in exactly one attribute, analysed one after the other in a fresh process
     for fam in ("cyl", "cart", "polar", "sph"):
         out.append({"kind": "gridseq", "family": fam, "phase": ph})
@@ -226,6 +231,20 @@ def _cases(block):
                     yield {"grid": g, "drops": [[c1, R], [c2, R]], "classes": ["interior"] * dim, "elong": True}
                     if dim == 3:
                         break
+    elif k == "diag":
+        dim, mask = block["dim"], block["mask"]
+        for R1, R2 in ((8.0, 8.0), (9.0, 6.5)) if dim == 2 else ((6.0, 6.0),):
+            gap = 3.0
+            dist = R1 + R2 + gap
+            for v in ([1.0] * dim, [1.0, 0.6, 1.0][:dim], [1.0, -1.0, 1.0][:dim]):
+                nv = math.sqrt(sum(x * x for x in v))
+                step = [x / nv * dist for x in v]
+                n = [int(math.ceil(R1 + R2 + abs(st) + 4)) + 2 for st in step]
+                g = {"kind": "cart", "shape": n, "dx": [1.0] * dim, "origin": [0.0] * dim, "periodic": list(mask)}
+                for off in ((0.2 + ph, 0.6, 0.4)[:dim], (0.5 + ph, 0.5, 0.5)[:dim]):
+                    c1 = [(R1 + 2 + o) if st >= 0 else (n[a] - R1 - 2 - o) for a, (st, o) in enumerate(zip(step, off))]
+                    c2 = [c + st for c, st in zip(c1, step)]
+                    yield {"grid": g, "drops": [[c1, R1], [c2, R2]], "classes": ["interior"] * dim, "diag": True}
     elif k == "gridseq":
         V = grid_variants(block["family"])
         for a, b in itertools.permutations(range(len(V)), 2):
@@ -281,6 +300,8 @@ def run_case(case, ctx):
         ctx.count("other-length-units")
     if case.get("elong"):
         ctx.count("pairs-separated-by-the-other-axis-length")
+    if case.get("diag"):
+        ctx.count("diagonal-pairs-with-overlapping-bounding-boxes")
     if g.get("r0"):
         ctx.count("annular-grid")
     if case.get("outer"):
@@ -393,4 +414,4 @@ def run_case(case, ctx):
 def expected_positive(tier):
     return ["C01.count", "C01.volume", "C01.centre", "C01.inbox", "C01.integral", "straddling-periodic-boundary", "straddling-periodic-corner",
             "centre-outside-box", "anisotropic", "two-droplets", "covers>=3cells",
-            "grid-sequences", "pairs-separated-by-the-other-axis-length", "annular-grid", "droplet-reaching-the-outer-wall", "other-length-units"]
+            "grid-sequences", "pairs-separated-by-the-other-axis-length", "annular-grid", "droplet-reaching-the-outer-wall", "other-length-units", "diagonal-pairs-with-overlapping-bounding-boxes"]
